@@ -14,7 +14,10 @@ import ast
 
 from .. import cfg as cfgmod
 from ..loader import AnalysisError, unparse, call_name, attr_chain
-from ..dataflow import target_names, single_assign_subst
+from ..dataflow import target_names, single_assign_subst, resolve_expr
+from ..cfg import atomic_facts
+from ..inline import flatten
+from ..loader import stmt_of
 from ..solver_model import Sweep, PARTITIONS, iter_partition
 
 TECHNIQUE = ('static analysis: pairing of append/remove on all paths of the decorative pass, argument-role check of the '
@@ -134,73 +137,118 @@ def run(prog, check):
              'the rebuild keeps every name and takes its equation from AllEquations[name]' if okr else
              'the rebuild filters, renames or mispairs equations', 'alias substitution in a three-equation system')
     # ---- R2 ----------------------------------------------------------------------------------------
-    ga = cfgmod.build(alias_pass)
-    outer = [n for n in alias_pass.node.body if isinstance(n, ast.For)]
+    # decided on the alias pass with its private helpers inlined; local temporaries are resolved to their definitions
+    alias_flat = flatten(prog, alias_pass)
+    ga = cfgmod.build(alias_flat)
+    asub = single_assign_subst(alias_flat.node)
+    calls = [c for c in ast.walk(alias_flat.node) if isinstance(c, ast.Call) and call_name(c) == 'replace_token']
+
+    def enclosing_fors(node):
+        out = []
+        p_ = getattr(node, '_parent', None)
+        while p_ is not None and p_ is not alias_flat.node:
+            if isinstance(p_, ast.For):
+                out.append(p_)
+            p_ = getattr(p_, '_parent', None)
+        return out
+    outer = [n for n in ast.walk(alias_flat.node) if isinstance(n, ast.For) and iter_partition(n) == 'Endogenous'
+             and any(c in list(ast.walk(n)) for c in calls)]
     if not outer:
-        raise AnalysisError('alias pass has no outer loop')
+        cand = [n for n in alias_flat.node.body if isinstance(n, ast.For)]
+        if not cand:
+            raise AnalysisError('alias pass has no outer loop')
+        outer = cand[:1]
     ol = outer[0]
     otv = target_names(ol.target)
     ok_iter = iter_partition(ol) == 'Endogenous'
     check.ob('C03.R2', '%s::candidates-are-endogenous' % alias_pass.key, ok_iter, '%s:%d' % (alias_pass.module.rel, ol.lineno),
              'alias candidates range over the endogenous block', 'x = y with y exogenous / lagged')
-    asub = single_assign_subst(alias_pass.node)
-    calls = [c for c in ast.walk(ol) if isinstance(c, ast.Call) and call_name(c) == 'replace_token']
+
+    def is_cleaned_def(e):
+        e = resolve_expr(e, asub) if e is not None else None
+        return isinstance(e, ast.Call) and call_name(e) == 'CleanupRightHandSide' and e.args and \
+            isinstance(e.args[0], ast.Name) and len(otv) > 1 and e.args[0].id == otv[1]
+
+    def despace_chain(value, call_txt):
+        """value (resolved) is the replacer call wrapped only in str() / .strip() / .replace(<blank>, '')"""
+        e = value
+        while True:
+            if isinstance(e, ast.Call) and unparse(e) == call_txt:
+                return True
+            if isinstance(e, ast.Call) and isinstance(e.func, ast.Name) and e.func.id == 'str' and len(e.args) == 1:
+                e = e.args[0]
+                continue
+            if isinstance(e, ast.Call) and isinstance(e.func, ast.Attribute) and e.func.attr == 'strip' and not e.args:
+                e = e.func.value
+                continue
+            if isinstance(e, ast.Call) and isinstance(e.func, ast.Attribute) and e.func.attr == 'replace' and len(e.args) == 2 \
+                    and isinstance(e.args[0], ast.Constant) and isinstance(e.args[0].value, str) and e.args[0].value.strip() == '' \
+                    and e.args[0].value != '' and isinstance(e.args[1], ast.Constant) and e.args[1].value == '':
+                e = e.func.value
+                continue
+            return False
     for c in calls:
         tgt, rep = (c.args + [None, None, None])[1:3]
-        tgt_ok = isinstance(tgt, ast.Name) and tgt.id == otv[0]
-        rep_e = rep
-        if isinstance(rep, ast.Name) and rep.id in asub:
-            rep_e = asub[rep.id]
-        rep_ok = isinstance(rep_e, ast.Call) and call_name(rep_e) == 'CleanupRightHandSide' and rep_e.args and \
-            isinstance(rep_e.args[0], ast.Name) and rep_e.args[0].id == otv[1]
+        tgt_r = resolve_expr(tgt, asub) if tgt is not None else None
+        tgt_ok = isinstance(tgt_r, ast.Name) and tgt_r.id == otv[0]
+        rep_ok = is_cleaned_def(rep)
         check.ob('C03.R2', '%s::substitution-direction' % alias_pass.key, tgt_ok and rep_ok, '%s:%d' % (alias_pass.module.rel, c.lineno),
                  'occurrences of the alias `%s` are replaced by its cleaned definition' % otv[0] if (tgt_ok and rep_ok) else
                  'replace_token(%s, %s): target must be the eliminated variable, replacement its cleaned right-hand side'
                  % (unparse(tgt), unparse(rep)), 'x = y; z = x + 1 must become z = y + 1, not the reverse')
         # applied over all equations, stored back under the same key, tokens refreshed
-        inner = getattr(c, '_parent', None)
-        while inner is not None and not isinstance(inner, ast.For):
-            inner = getattr(inner, '_parent', None)
-        all_eq = inner is not None and inner is not ol and 'AllEquations' in unparse(inner.iter)
+        fors = [x for x in enclosing_fors(c) if x is not ol]
+        inner = fors[0] if fors else None
+        all_eq = inner is not None and 'AllEquations' in unparse(inner.iter)
         check.ob('C03.R2', '%s::applied-to-all-equations' % alias_pass.key, all_eq, '%s:%d' % (alias_pass.module.rel, c.lineno),
                  'the substitution ranges over AllEquations' if all_eq else 'the substitution skips some equations', 'decorative / lagged users of the alias')
+        call_txt = unparse(resolve_expr(c, asub))
+        chain_ok = False
         if all_eq:
             k = target_names(inner.target)[0]
-            src_ok = isinstance(c.args[0], ast.Subscript) and 'AllEquations' in unparse(c.args[0].value) and unparse(c.args[0].slice) == k
-            stores = [s for s in inner.body if isinstance(s, ast.Assign) and isinstance(s.targets[0], ast.Subscript)
-                      and 'AllEquations' in unparse(s.targets[0].value) and unparse(s.targets[0].slice) == k]
-            refresh = [s for s in inner.body if isinstance(s, ast.Assign) and isinstance(s.targets[0], ast.Subscript)
-                       and 'Tokens' in unparse(s.targets[0].value) and unparse(s.targets[0].slice) == k
-                       and isinstance(s.value, ast.Call) and call_name(s.value) == 'list_tokens'
-                       and 'AllEquations' in unparse(s.value.args[0]) and unparse(s.value.args[0].slice) == k]
-            okf = src_ok and len(stores) == 1 and len(refresh) == 1 and inner.body.index(refresh[0]) > inner.body.index(stores[0])
+            src = resolve_expr(c.args[0], asub) if c.args else None
+            src_ok = isinstance(src, ast.Subscript) and 'AllEquations' in unparse(src.value) and unparse(src.slice) == k
+            stores = [s_ for s_ in ast.walk(inner) if isinstance(s_, ast.Assign) and isinstance(s_.targets[0], ast.Subscript)
+                      and 'AllEquations' in unparse(s_.targets[0].value) and unparse(s_.targets[0].slice) == k]
+            refresh = [s_ for s_ in ast.walk(inner) if isinstance(s_, ast.Assign) and isinstance(s_.targets[0], ast.Subscript)
+                       and 'Tokens' in unparse(s_.targets[0].value) and unparse(s_.targets[0].slice) == k
+                       and isinstance(resolve_expr(s_.value, asub), ast.Call) and call_name(resolve_expr(s_.value, asub)) == 'list_tokens']
+            okf = src_ok and len(stores) == 1
+            if okf:
+                st = stores[0]
+                chain_ok = despace_chain(resolve_expr(st.value, asub), call_txt)
+                sn = ga.node_of(st)
+                hn = [n for n in ga.nodes if n.kind == 'for' and n.stmt is inner][0]
+                good = []
+                for r_ in refresh:
+                    arg = resolve_expr(r_.value, asub).args[0]
+                    same_key = isinstance(arg, ast.Subscript) and 'AllEquations' in unparse(arg.value) and unparse(arg.slice) == k
+                    same_val = unparse(arg) == unparse(resolve_expr(st.value, asub))
+                    if same_key or same_val:
+                        good.append(ga.node_of(r_))
+                # every way from the store back to the loop header (or out of the loop) refreshes the token list
+                nxt = [b_ for b_, lab in ga.succ[sn.id] if lab not in ('exc', 'raise')]
+                okf = bool(good) and all(ga.must_pass(b_, hn, good) or ga.nodes[b_] in good for b_ in nxt)
             check.ob('C03.R2', '%s::store-then-refresh-tokens' % alias_pass.key, okf, '%s:%d' % (alias_pass.module.rel, inner.lineno),
                      'each rewritten equation is stored under its own key and its token list is refreshed' if okf else
                      'the derived token list can be stale after a substitution (or the equation is stored under another key)',
                      'alias chains: x = y, y = z')
+        # only text post-processing allowed on the result: whitespace removal / str()
+        check.ob('C03.R2', '%s::result-only-despaced' % alias_pass.key, chain_ok, '%s:%d' % (alias_pass.module.rel, c.lineno),
+                 'the rewritten text is only stripped of spaces' if chain_ok else 'the rewritten text is further rewritten (or not stored)', 'any alias')
+        # guard: only when the RHS is a variable of the system
+        gk = False
+        for test, outcome in ga.conditions_at(ga.node_of(stmt_of(c))):
+            for txt, val, e in atomic_facts(test, outcome):
+                e = resolve_expr(e, asub)
+                if val and isinstance(e, ast.Compare) and len(e.ops) == 1 and isinstance(e.ops[0], ast.In) and \
+                        'AllEquations' in unparse(e.comparators[0]) and is_cleaned_def(e.left):
+                    gk = True
+        check.ob('C03.R2', '%s::alias-of-a-system-variable-only' % alias_pass.key, gk, '%s:%d' % (alias_pass.module.rel, c.lineno),
+                 'substitution only when the whole right-hand side is a variable of the system' if gk else
+                 'substitution is not restricted to right-hand sides that are a variable of the system', 'x = sqrt  /  x = 2')
     check.ob('C03.R2', '%s::token-level-only' % alias_pass.key, len(calls) >= 1, alias_pass.where,
              '%d token-level substitution site(s)' % len(calls), '')
-    # only text post-processing allowed on the result: whitespace removal / str()
-    for c in calls:
-        p = getattr(c, '_parent', None)
-        chain_ok = True
-        while p is not None and not isinstance(p, ast.stmt):
-            if isinstance(p, ast.Call) and call_name(p) == 'replace':
-                a0 = p.args[0]
-                if not (isinstance(a0, ast.Constant) and a0.value.strip() == '' and isinstance(p.args[1], ast.Constant) and p.args[1].value == ''):
-                    chain_ok = False
-            elif isinstance(p, ast.Call) and call_name(p) not in ('str', 'strip'):
-                chain_ok = False
-            p = getattr(p, '_parent', None)
-        check.ob('C03.R2', '%s::result-only-despaced' % alias_pass.key, chain_ok, '%s:%d' % (alias_pass.module.rel, c.lineno),
-                 'the rewritten text is only stripped of spaces' if chain_ok else 'the rewritten text is further rewritten', 'any alias')
-    # guard: only when the RHS is a variable of the system; loops raise
-    guard = [n for n in ast.walk(ol) if isinstance(n, ast.If) and isinstance(n.test, ast.Compare) and isinstance(n.test.ops[0], ast.In)
-             and 'AllEquations' in unparse(n.test.comparators[0])]
-    gk = bool(guard) and all(c in list(ast.walk(guard[0])) for c in calls)
-    check.ob('C03.R2', '%s::alias-of-a-system-variable-only' % alias_pass.key, gk, '%s:%d' % (alias_pass.module.rel, ol.lineno),
-             'substitution only when the whole right-hand side is a variable of the system' if gk else
-             'substitution is not restricted to right-hand sides that are a variable of the system', 'x = sqrt  /  x = 2')
     raises = [n for n in ast.walk(ol) if isinstance(n, ast.Raise)]
     check.ob('C03.R2', '%s::equality-loop-raises' % alias_pass.key, bool(raises), '%s:%d' % (alias_pass.module.rel, ol.lineno),
              'a two-variable equality loop raises' if raises else 'equality loops are not detected', 'x = y; y = x')
@@ -230,35 +278,89 @@ def run(prog, check):
                  'partition %s is not consumed by %s' % (L, 'the variable list' if not in_b else 'the step function'),
                  'a variable set aside by reduction must still get a series')
     # ---- R4 ----------------------------------------------------------------------------------------
-    scans = [n for n in ast.walk(loop) if isinstance(n, ast.For)]
-    ok4 = False
-    why = 'no reference scan found'
-    for s in scans:
-        src = unparse(s.iter)
-        k = target_names(s.target)[0]
-        test = [t for t in ast.walk(s) if isinstance(t, ast.Compare) and isinstance(t.ops[0], ast.In) and
-                isinstance(t.left, ast.Name) and t.left.id == tv[0] and 'Tokens' in unparse(t.comparators[0])
-                and unparse(t.comparators[0].slice if isinstance(t.comparators[0], ast.Subscript) else t.comparators[0]) == k]
-        if ('self.Tokens' == src or 'AllEquations' in src) and test:
-            ok4 = True
-            why = 'a variable is kept when any token list (over %s) mentions it' % src
-        elif test:
-            why = 'reference scan ranges over %s only' % src
-    check.ob('C03.R4', '%s::reference-scan-covers-all' % deco_pass.key, ok4, '%s:%d' % (deco_pass.module.rel, loop.lineno), why,
-             'a variable referenced only by a lagged or decorative equation')
-    # found => not moved: the move is under `not found`
-    flag_ok = False
-    for t in g.nodes:
-        if t.kind == 'test' and loop in t.loops and isinstance(t.ast, ast.UnaryOp) and isinstance(t.ast.op, ast.Not) and \
-                isinstance(t.ast.operand, ast.Name) and all(g.dominates(t, n) for n in apps + rems):
-            fl = t.ast.operand.id
+    # the move is executed only under the outcome "no token list of the system mentions the variable"
+    dsub = single_assign_subst(deco_pass.node)
+
+    def membership(t, key_names, val_names):
+        """t is `<moved var> in self.Tokens[<k>]` / `<moved var> in <toks>`"""
+        if not (isinstance(t, ast.Compare) and len(t.ops) == 1 and isinstance(t.ops[0], ast.In) and
+                isinstance(t.left, ast.Name) and t.left.id == tv[0]):
+            return False
+        c_ = t.comparators[0]
+        if isinstance(c_, ast.Subscript) and 'Tokens' in unparse(c_.value) and unparse(c_.slice) in key_names:
+            return True
+        return isinstance(c_, ast.Name) and c_.id in val_names
+
+    def scan_source(it, target):
+        """(source text, key names, value names) when the iteration ranges over the token table"""
+        names = target_names(target)
+        if isinstance(it, ast.Call) and isinstance(it.func, ast.Attribute) and it.func.attr in ('keys', 'values', 'items') and not it.args:
+            base = unparse(it.func.value)
+            if it.func.attr == 'keys':
+                return base, names[:1], []
+            if it.func.attr == 'values':
+                return base, [], names[:1]
+            return base, names[:1], names[1:2]
+        return unparse(it), names[:1], []
+
+    def referenced_predicate(e):
+        """source text of the scan when `e` means "some token list mentions the moved variable", else None"""
+        e = resolve_expr(e, dsub)
+        if isinstance(e, ast.Call) and isinstance(e.func, ast.Name) and e.func.id == 'any' and len(e.args) == 1 and \
+                isinstance(e.args[0], (ast.GeneratorExp, ast.ListComp)) and len(e.args[0].generators) == 1 and \
+                not e.args[0].generators[0].ifs:
+            gen = e.args[0].generators[0]
+            src, keys, vals = scan_source(gen.iter, gen.target)
+            if membership(e.args[0].elt, keys, vals):
+                return src
+        if isinstance(e, ast.Name):
+            fl = e.id
             sets = [n for n in ast.walk(loop) if isinstance(n, ast.Assign) and fl in target_names(n.targets[0])]
             init_false = any(isinstance(n.value, ast.Constant) and n.value.value is False and n in loop.body for n in sets)
-            set_true = any(isinstance(n.value, ast.Constant) and n.value.value is True for n in sets)
-            flag_ok = init_false and set_true
+            trues = [n for n in sets if isinstance(n.value, ast.Constant) and n.value.value is True]
+            others = [n for n in sets if not (isinstance(n.value, ast.Constant) and n.value.value in (True, False))]
+            if not init_false or not trues or others:
+                return None
+            src = None
+            for n in trues:
+                # the enclosing scan loop and the membership test that guards the assignment
+                p_ = getattr(n, '_parent', None)
+                guard, scan = None, None
+                while p_ is not None and p_ is not loop:
+                    if isinstance(p_, ast.If) and guard is None:
+                        guard = p_
+                    if isinstance(p_, ast.For) and scan is None:
+                        scan = p_
+                    p_ = getattr(p_, '_parent', None)
+                if guard is None or scan is None:
+                    return None
+                s_, keys, vals = scan_source(scan.iter, scan.target)
+                if not membership(guard.test, keys, vals) or n not in list(ast.walk(ast.Module(body=guard.body, type_ignores=[]))):
+                    return None
+                src = s_
+            return src
+        return None
+    srcs = []
+    flag_ok = bool(apps + rems)
+    for mv in apps + rems:
+        found_src = None
+        for test, outcome in g.conditions_at(mv):
+            for txt, val, e in atomic_facts(test, outcome):
+                src = referenced_predicate(e)
+                if src is not None and val is False:
+                    found_src = src
+        if found_src is None:
+            flag_ok = False
+        else:
+            srcs.append(found_src)
+    ok4 = bool(srcs) and all(x == 'self.Tokens' or 'AllEquations' in x for x in srcs)
+    why = ('a variable is kept when any token list (over %s) mentions it' % srcs[0]) if ok4 else \
+        ('reference scan ranges over %s only' % sorted(set(srcs)) if srcs else 'no reference scan found')
+    check.ob('C03.R4', '%s::reference-scan-covers-all' % deco_pass.key, ok4, '%s:%d' % (deco_pass.module.rel, loop.lineno), why,
+             'a variable referenced only by a lagged or decorative equation')
     check.ob('C03.R4', '%s::referenced-variable-stays' % deco_pass.key, flag_ok, '%s:%d' % (deco_pass.module.rel, loop.lineno),
-             'the move happens only when the per-variable "found" flag (reset for each variable) is false' if flag_ok else
-             'a referenced variable can be moved (flag missing, not reset per variable, or polarity inverted)',
+             'the move happens only when no token list mentions the variable (decided per variable)' if flag_ok else
+             'a referenced variable can be moved (test missing, not decided per variable, or polarity inverted)',
              'x referenced by y: x must stay in the simultaneous block')
     # ---- R1b: reduction never rewrites the lagged / exogenous partitions ----------------------------------
     for f in P.methods.values():
